@@ -1809,3 +1809,151 @@ func lemmaC10_isolation_AU915(rep bool, dt lorawan.DwellTime, f uint32, lo, hi, 
 	verifAssert((errb == nil) == (erra == nil), "same-outcome")
 	verifAssert(errb != nil || before == after, "unchanged")
 }
+
+// ---------------------------------------------------------------------------
+// C13: every data-rate index a band hands out (looked up from data-rate parameters) resolves
+// ---------------------------------------------------------------------------
+func lemmaC13_index_resolves_US915(rep, uplink bool, d DataRate) {
+	b, _ := newUS902Band(rep)
+	k, e := b.GetDataRateIndex(uplink, d)
+	if e != nil {
+		return
+	}
+	_, e2 := b.GetDataRate(k)
+	verifAssert(e2 == nil, "index-resolves")
+}
+
+func lemmaC13_index_resolves_IN865(rep, uplink bool, d DataRate) {
+	b, _ := newIN865Band(rep)
+	k, e := b.GetDataRateIndex(uplink, d)
+	if e != nil {
+		return
+	}
+	_, e2 := b.GetDataRate(k)
+	verifAssert(e2 == nil, "index-resolves")
+}
+
+func lemmaC13_index_resolves_EU868(rep, uplink bool, d DataRate) {
+	b, _ := newEU863Band(rep)
+	k, e := b.GetDataRateIndex(uplink, d)
+	if e != nil {
+		return
+	}
+	_, e2 := b.GetDataRate(k)
+	verifAssert(e2 == nil, "index-resolves")
+}
+
+func lemmaC13_index_resolves_EU433(rep, uplink bool, d DataRate) {
+	b, _ := newEU433Band(rep)
+	k, e := b.GetDataRateIndex(uplink, d)
+	if e != nil {
+		return
+	}
+	_, e2 := b.GetDataRate(k)
+	verifAssert(e2 == nil, "index-resolves")
+}
+
+func lemmaC13_index_resolves_CN779(rep, uplink bool, d DataRate) {
+	b, _ := newCN779Band(rep)
+	k, e := b.GetDataRateIndex(uplink, d)
+	if e != nil {
+		return
+	}
+	_, e2 := b.GetDataRate(k)
+	verifAssert(e2 == nil, "index-resolves")
+}
+
+func lemmaC13_index_resolves_KR920(rep, uplink bool, d DataRate) {
+	b, _ := newKR920Band(rep)
+	k, e := b.GetDataRateIndex(uplink, d)
+	if e != nil {
+		return
+	}
+	_, e2 := b.GetDataRate(k)
+	verifAssert(e2 == nil, "index-resolves")
+}
+
+func lemmaC13_index_resolves_RU864(rep, uplink bool, d DataRate) {
+	b, _ := newRU864Band(rep)
+	k, e := b.GetDataRateIndex(uplink, d)
+	if e != nil {
+		return
+	}
+	_, e2 := b.GetDataRate(k)
+	verifAssert(e2 == nil, "index-resolves")
+}
+
+func lemmaC13_index_resolves_ISM2400(rep, uplink bool, d DataRate) {
+	b, _ := newISM2400Band(rep)
+	k, e := b.GetDataRateIndex(uplink, d)
+	if e != nil {
+		return
+	}
+	_, e2 := b.GetDataRate(k)
+	verifAssert(e2 == nil, "index-resolves")
+}
+
+func lemmaC13_index_resolves_CN470(rep, uplink bool, d DataRate) {
+	b, _ := newCN470Band(rep)
+	k, e := b.GetDataRateIndex(uplink, d)
+	if e != nil {
+		return
+	}
+	_, e2 := b.GetDataRate(k)
+	verifAssert(e2 == nil, "index-resolves")
+}
+
+func lemmaC13_index_resolves_AS923(rep bool, dt lorawan.DwellTime, uplink bool, d DataRate) {
+	verifAssume(dt == lorawan.DwellTimeNoLimit || dt == lorawan.DwellTime400ms)
+	b, _ := newAS923Band(rep, dt, 0, "")
+	k, e := b.GetDataRateIndex(uplink, d)
+	if e != nil {
+		return
+	}
+	_, e2 := b.GetDataRate(k)
+	verifAssert(e2 == nil, "index-resolves")
+}
+
+func lemmaC13_index_resolves_AS923_2(rep bool, dt lorawan.DwellTime, uplink bool, d DataRate) {
+	verifAssume(dt == lorawan.DwellTimeNoLimit || dt == lorawan.DwellTime400ms)
+	b, _ := newAS923Band(rep, dt, -1800000, "-2")
+	k, e := b.GetDataRateIndex(uplink, d)
+	if e != nil {
+		return
+	}
+	_, e2 := b.GetDataRate(k)
+	verifAssert(e2 == nil, "index-resolves")
+}
+
+func lemmaC13_index_resolves_AS923_3(rep bool, dt lorawan.DwellTime, uplink bool, d DataRate) {
+	verifAssume(dt == lorawan.DwellTimeNoLimit || dt == lorawan.DwellTime400ms)
+	b, _ := newAS923Band(rep, dt, -6600000, "-3")
+	k, e := b.GetDataRateIndex(uplink, d)
+	if e != nil {
+		return
+	}
+	_, e2 := b.GetDataRate(k)
+	verifAssert(e2 == nil, "index-resolves")
+}
+
+func lemmaC13_index_resolves_AS923_4(rep bool, dt lorawan.DwellTime, uplink bool, d DataRate) {
+	verifAssume(dt == lorawan.DwellTimeNoLimit || dt == lorawan.DwellTime400ms)
+	b, _ := newAS923Band(rep, dt, -5900000, "-4")
+	k, e := b.GetDataRateIndex(uplink, d)
+	if e != nil {
+		return
+	}
+	_, e2 := b.GetDataRate(k)
+	verifAssert(e2 == nil, "index-resolves")
+}
+
+func lemmaC13_index_resolves_AU915(rep bool, dt lorawan.DwellTime, uplink bool, d DataRate) {
+	verifAssume(dt == lorawan.DwellTimeNoLimit || dt == lorawan.DwellTime400ms)
+	b, _ := newAU915Band(rep, dt)
+	k, e := b.GetDataRateIndex(uplink, d)
+	if e != nil {
+		return
+	}
+	_, e2 := b.GetDataRate(k)
+	verifAssert(e2 == nil, "index-resolves")
+}
